@@ -293,6 +293,16 @@ func c16TieCases() []*pairCase {
 			"-A INPUT -p udp -m udp --sport 1024:65535 -j c1", "-A c1 -p 58 -j ACCEPT", "-A c2 -p icmp -m icmp --icmp-type 8 -j ACCEPT"),
 		map[string]string{"router": lin("-A INPUT -p ipv6-icmp -m ipv6-icmp -j ACCEPT", "-A INPUT -p 112 -j ACCEPT", "-A INPUT -s 10.1.1.1 -p TCP --dport 80 -j ACCEPT",
 			"-A INPUT -p udp --sport 1024: -j c1", "-A c1 -p ipv6-icmp -m ipv6-icmp -j ACCEPT", "-A c2 -p icmp --icmp-type 8 -j ACCEPT")})
+	// The same with many rules, so that a rewrite that depends on the
+	// iteration order of the option map shows in nearly every run.
+	{
+		var dl, tl []string
+		for i := 1; i <= 12; i++ {
+			dl = append(dl, fmt.Sprintf("-A INPUT -s 10.1.1.%d/32 -p ipv6-icmp -j ACCEPT", i), fmt.Sprintf("-A c1 -s 10.1.2.%d/32 -p tcp -m tcp --dport %d -j ACCEPT", i, 80+i))
+			tl = append(tl, fmt.Sprintf("-A INPUT -s 10.1.1.%d -p ipv6-icmp -m ipv6-icmp -j ACCEPT", i), fmt.Sprintf("-A c1 -s 10.1.2.%d -p TCP --dport %d -j ACCEPT", i, 80+i))
+		}
+		add("Linux", "linux-equivalent-spellings-many-rules", lin(dl...), map[string]string{"router": lin(tl...)})
+	}
 	add("Linux", "linux-raw-adds-several-tables-and-chains",
 		lin("-A INPUT -j c1"),
 		map[string]string{"router": lin("-A INPUT -j c1"),
